@@ -1,5 +1,5 @@
 (* C12 — LSB0 mode is a pure index mirror of MSB0 mode (statements; SeqProofs.v). *)
-From BS Require Import Prims BitsCore SeqProofs.
+From BS Require Import Prims BitsCore Search SeqProofs MirrorProofs SearchProofs SearchTop LsbSearch.
 Open Scope Z_scope.
 
 (* bit i of X in lsb0 numbering is bit i of (rev X) in msb0 numbering, for every index incl. negative and out of range *)
@@ -12,9 +12,62 @@ Theorem C12_mirror_getslice_positive_step : forall b k,
   getslice_withstep_lsb0 b k = res_map (@rev bool) (getslice_withstep_msb0 (rev b) k).
 Proof. exact mirror_getslice_posstep. Qed.
 
+(* ... and any negative step: hence EVERY slice key (a zero step is refused on both sides) *)
+Theorem C12_mirror_getslice_negative_step : forall b k,
+  (match s_step k with None => False | Some s => s < 0 end) ->
+  getslice_withstep_lsb0 b k = res_map (@rev bool) (getslice_withstep_msb0 (rev b) k).
+Proof. exact mirror_getslice_negstep. Qed.
+Theorem C12_mirror_getslice : forall b k, getslice_withstep_lsb0 b k = res_map (@rev bool) (getslice_withstep_msb0 (rev b) k).
+Proof. exact mirror_getslice. Qed.
+(* the two-argument accessor getslice_lsb0 (used by _slice, read, cut, ...) *)
+Theorem C12_mirror_getslice_two_arguments : forall b start stop, getslice_lsb0 b start stop = res_map (@rev bool) (getslice_msb0 (rev b) start stop).
+Proof. exact mirror_getslice_nostep. Qed.
+(* single-bit assignment, inversion and deletion at any index (IndexError on the same indices) *)
+Theorem C12_mirror_setbit : forall b i x, setbit_lsb0 b i x = res_map (@rev bool) (setbit_msb0 (rev b) i x).
+Proof. exact mirror_setbit. Qed.
+Theorem C12_mirror_invert_bit : forall b i, invert_at true b i = res_map (@rev bool) (invert_at false (rev b) i).
+Proof. exact mirror_invert_at. Qed.
+Theorem C12_mirror_delbit : forall b i, delbit_lsb0 b i = res_map (@rev bool) (delbit_msb0 (rev b) i).
+Proof. exact mirror_delbit. Qed.
+(* a[i:j] = v and del a[i:j] (unit step, any i, j incl. negative, omitted, out of range, empty): the operand is mirrored too *)
+Theorem C12_mirror_slice_assignment : forall b start stop v,
+  setslice_lsb0 b (mkslice start stop None) v = res_map (@rev bool) (setslice_msb0 (rev b) (mkslice start stop None) (rev v)).
+Proof. exact mirror_setslice_unit. Qed.
+Theorem C12_mirror_slice_deletion : forall b start stop,
+  delslice_lsb0 b (mkslice start stop None) = res_map (@rev bool) (delslice_msb0 (rev b) (mkslice start stop None)).
+Proof. exact mirror_delslice_unit. Qed.
+(* searching under lsb0 (the chunked scan from the end backwards, any data size, any count, either alignment) is the msb0 search
+   of the mirrored pattern in the mirrored data over the same [start, end) *)
+Theorem C12_mirror_findall : forall d p start stop count ba s e, p <> [] -> count_ok count -> validate_slice d start stop = Ok (s, e) ->
+  bs_findall true d p start stop count ba = bs_findall false (rev d) (rev p) (Some s) (Some e) count ba.
+Proof. exact bs_findall_lsb0_is_mirror. Qed.
+Theorem C12_mirror_find : forall d p start stop ba s e, p <> [] -> validate_slice d start stop = Ok (s, e) ->
+  bs_find true d p start stop ba = bs_find false (rev d) (rev p) (Some s) (Some e) ba.
+Proof. exact bs_find_lsb0_is_mirror. Qed.
+Theorem C12_mirror_rfind : forall d p start stop ba s e, p <> [] -> validate_slice d start stop = Ok (s, e) ->
+  bs_rfind true d p start stop ba = bs_rfind false (rev d) (rev p) (Some s) (Some e) ba.
+Proof. exact bs_rfind_lsb0_is_mirror. Qed.
+Theorem C12_lsb0_findall_is_brute_force_on_the_mirror : forall d p s e ba count, p <> [] -> count_ok count -> 0 <= s -> s <= e -> e <= zlen d ->
+  findall_lsb0 d p s e count ba = Ok (take_count count (spec_matches (rev d) (rev p) s e ba)).
+Proof. intros. apply findall_lsb0_count_is_mirror; assumption. Qed.
+Example C12_nonvacuous : getslice_withstep_lsb0 [true;true;false;true;false;false;false] (mkslice (Some 6) (Some 1) (Some (-2))) = Ok [false;false;true].
+Proof. vm_compute. reflexivity. Qed.
+
 Theorem C12_len_mode_free : forall b, bs_len (rev b) = bs_len b.
 Proof. exact mirror_len. Qed.
 
 Print Assumptions C12_mirror_getindex.
 Print Assumptions C12_mirror_getslice_positive_step.
 Print Assumptions C12_len_mode_free.
+Print Assumptions C12_mirror_getslice_negative_step.
+Print Assumptions C12_mirror_getslice.
+Print Assumptions C12_mirror_getslice_two_arguments.
+Print Assumptions C12_mirror_setbit.
+Print Assumptions C12_mirror_invert_bit.
+Print Assumptions C12_mirror_delbit.
+Print Assumptions C12_mirror_slice_assignment.
+Print Assumptions C12_mirror_slice_deletion.
+Print Assumptions C12_mirror_findall.
+Print Assumptions C12_mirror_find.
+Print Assumptions C12_mirror_rfind.
+Print Assumptions C12_lsb0_findall_is_brute_force_on_the_mirror.
